@@ -28,8 +28,75 @@ func verifC18(x string, entry int) {
 	verifC18xy(x, entry, "SELECT (1", verifEStatements)
 }
 
+// verifParseAPI calls the package-level helper of entry point e (ParseStatement(filepath, s) ...),
+// which is what most users call; the result has the shape of verifParse.
+func verifParseAPI(e int, x string) (nodes []ast.Node, err error) {
+	switch e {
+	case verifEStatement:
+		n, err := ParseStatement("f", x)
+		return []ast.Node{n}, err
+	case verifEStatements:
+		ns, err := ParseStatements("f", x)
+		for _, n := range ns {
+			nodes = append(nodes, n)
+		}
+		return nodes, err
+	case verifEQuery:
+		n, err := ParseQuery("f", x)
+		if n == nil {
+			return []ast.Node{nil}, err
+		}
+		return []ast.Node{n}, err
+	case verifEExpr:
+		n, err := ParseExpr("f", x)
+		return []ast.Node{n}, err
+	case verifEType:
+		n, err := ParseType("f", x)
+		return []ast.Node{n}, err
+	case verifEDDL:
+		n, err := ParseDDL("f", x)
+		return []ast.Node{n}, err
+	case verifEDDLs:
+		ns, err := ParseDDLs("f", x)
+		for _, n := range ns {
+			nodes = append(nodes, n)
+		}
+		return nodes, err
+	case verifEDML:
+		n, err := ParseDML("f", x)
+		return []ast.Node{n}, err
+	case verifEDMLs:
+		ns, err := ParseDMLs("f", x)
+		for _, n := range ns {
+			nodes = append(nodes, n)
+		}
+		return nodes, err
+	}
+	panic("verifParseAPI: bad entry")
+}
+
+// verifDisjoint: two results share no node (a shared node is shared mutable state).
+func verifDisjoint(a, b verifParseResult, what string) {
+	if len(a.all)*len(b.all) > 6000 {
+		for i := range a.all {
+			if i < len(b.all) && a.all[i] == b.all[i] {
+				verifFail("C18/results-share-nodes", what)
+			}
+		}
+		return
+	}
+	for _, x := range a.all {
+		for _, y := range b.all {
+			if x == y {
+				verifFail("C18/results-share-nodes", what)
+			}
+		}
+	}
+}
+
 type verifParseResult struct {
 	nodes []ast.Node
+	all   []ast.Node
 	sql   []string
 	pos   []int
 	errs  string
@@ -41,6 +108,7 @@ func verifSnapshot(nodes []ast.Node, err error) verifParseResult {
 	r.nodes = nodes
 	for _, root := range nodes {
 		for _, n := range verifAllNodes(root) {
+			r.all = append(r.all, n)
 			r.sql = append(r.sql, n.SQL())
 			r.pos = append(r.pos, int(n.Pos()), int(n.End()))
 		}
@@ -85,10 +153,12 @@ func verifSameResult(a, b verifParseResult, what string) {
 }
 
 func verifC18xy(x string, entry int, y string, entry2 int) {
-	n1, _, e1 := verifParse(entry, x)
+	n1, e1 := verifParseAPI(entry, x)
 	r1 := verifSnapshot(n1, e1)
 	// an unrelated call in between (other input, other entry point), incl. its unparse and traversal
-	n3, _, _ := verifParse(entry2, y)
+	n3, e3 := verifParseAPI(entry2, y)
+	r3 := verifSnapshot(n3, e3)
+	verifDisjoint(r1, r3, "with another input")
 	for _, root := range n3 {
 		if !verifIsNil(root) {
 			_ = root.SQL()
@@ -106,15 +176,11 @@ func verifC18xy(x string, entry int, y string, entry2 int) {
 	r1again := verifSnapshot(n1, e1)
 	verifSameResult(r1, r1again, "earlier-result-changed-by-later-call")
 	// repeating the call gives the identical result
-	n2, _, e2 := verifParse(entry, x)
+	n2, e2 := verifParseAPI(entry, x)
 	r2 := verifSnapshot(n2, e2)
 	verifSameResult(r1, r2, "repeated-call-differs")
 	// distinct results share no nodes
-	for i := range n1 {
-		if i < len(n2) && !verifIsNil(n1[i]) && n1[i] == n2[i] {
-			verifFail("C18/results-share-nodes", "")
-		}
-	}
+	verifDisjoint(r1, r2, "with the repeated call")
 	// package-level state must be unchanged: asserted by the executor after every
 	// path (label global-state-modified, the discriminator names the variable)
 	verifReach("C18/ok")
